@@ -202,3 +202,121 @@ def run_offset_e2e(repo_copy, workdir, w2c2_exe, offsets, cc="gcc"):
 
 # what the specification demands of one CASE(O): the cell at a+O holds 0x222 / 0x0000000500000222
 E2E_EXPECT = {"w32_cell": 2, "w32_other": 1, "w64_cell": 2, "w64_other": 1, "notify": 1, "waiter": 0}
+
+
+# ----------------------------------------------------------------------------- directed single-thread wait/notify cases (real w2c2 output vs V8)
+
+def wait_cases_module(offsets):
+    """Exports per offset o: w32_o(addr, expect:i64, timeout:i64) w64_o(addr, expect, timeout) nt_o(addr, count);
+    plus st64(addr, v).  Shared memory 1 page."""
+    import sys
+    sys.path.insert(0, os.path.dirname(HERE))
+    from wasmgen import wasm_ast as A, encode
+    m = A.Module()
+    m.types = [A.FuncType([A.I32, A.I64, A.I64], [A.I32]), A.FuncType([A.I32, A.I32], [A.I32]), A.FuncType([A.I32, A.I64], [])]
+    m.mems = [A.Limits(1, 1, True)]
+    I = A.Instr
+    funcs, exports = [], []
+    for o in offsets:
+        funcs.append(A.Function(0, [], [I('local.get', 0), I('local.get', 1), I('i32.wrap_i64'), I('local.get', 2),
+                                        I('memory.atomic.wait32', 2, o)]))
+        exports.append(A.Export(b'w32_%d' % o, 'func', len(funcs) - 1))
+        funcs.append(A.Function(0, [], [I('local.get', 0), I('local.get', 1), I('local.get', 2), I('memory.atomic.wait64', 3, o)]))
+        exports.append(A.Export(b'w64_%d' % o, 'func', len(funcs) - 1))
+        funcs.append(A.Function(1, [], [I('local.get', 0), I('local.get', 1), I('memory.atomic.notify', 2, o)]))
+        exports.append(A.Export(b'nt_%d' % o, 'func', len(funcs) - 1))
+    funcs.append(A.Function(2, [], [I('local.get', 0), I('local.get', 1), I('i64.store', 3, 0)]))
+    exports.append(A.Export(b'st64', 'func', len(funcs) - 1))
+    m.funcs = funcs
+    m.exports = exports
+    return encode(m)
+
+
+def spec_wait_code(cell, expect, w64):
+    """single thread, nobody notifies: 1 if the cell differs from the expected value, else 2 (finite timeout elapses)"""
+    if w64:
+        return 1 if (cell & ((1 << 64) - 1)) != (expect & ((1 << 64) - 1)) else 2
+    return 1 if (cell & 0xFFFFFFFF) != (expect & 0xFFFFFFFF) else 2
+
+
+def directed_wait_calls(rng, offsets, n_random=6):
+    """[(descr dict, [calls...])]: every case first stores the 64-bit cell at the effective address (and a decoy at the
+    operand address), then waits.  Timeouts are 0 or small and positive, so every call returns."""
+    cases = []
+    a = 256
+    for o in offsets:
+        combos = [
+            (0x0000000100000005, 0x0000000100000005, "equal"),
+            (0x0000000100000005, 0x0000000100000004, "low-differs"),
+            (0x0000000100000005, 0x0000000000000005, "high-only-differs"),
+            (0x0000000100000005, 0xFFFFFFFF00000005, "high-only-differs"),
+            (0x8000000000000000, 0x0000000000000000, "high-only-differs"),
+        ]
+        for _ in range(n_random):
+            cell = rng.choice([0, 5, 0xFFFFFFFF]) | (rng.choice([0, 1, 0xFFFFFFFF]) << 32)
+            kind = rng.choice(["equal", "low-differs", "high-only-differs"])
+            e = cell if kind == "equal" else cell ^ 1 if kind == "low-differs" else cell ^ (rng.choice([1, 0x80000000, 0xFFFFFFFF]) << 32)
+            combos.append((cell, e, kind))
+        for cell, e, kind in combos:
+            for to in (0, rng.choice([1000, 200000, 2000000])):
+                for w64 in (True, False):
+                    calls = [(b'st64', [('i32', a), ('i64', 0x7777777700000009)])] if o else []
+                    calls += [(b'st64', [('i32', a + o), ('i64', cell)]),
+                              (b'w64_%d' % o if w64 else b'w32_%d' % o, [('i32', a), ('i64', e), ('i64', to)])]
+                    cases.append(({"offset": o, "op": "wait64" if w64 else "wait32", "cell": cell, "expect": e, "timeout": to,
+                                   "kind": kind, "spec": spec_wait_code(cell, e, w64)}, calls))
+        cases.append(({"offset": o, "op": "notify", "cell": 0, "expect": 0, "timeout": 0, "kind": "no-waiter", "spec": 0},
+                      [(b'nt_%d' % o, [('i32', a), ('i32', 3)])]))
+    return cases
+
+
+def run_wait_cases(repo_copy, workdir, w2c2_exe, wasm_bytes, cases, cc="gcc"):
+    """Run the calls of every case on ONE instance of the module translated by the REAL w2c2 (gcc, real futex.c,
+    -DWASM_THREADS_PTHREADS).  Returns the result of the last call of each case."""
+    os.makedirs(workdir, exist_ok=True)
+    wasm = os.path.join(workdir, "wc.wasm")
+    open(wasm, "wb").write(wasm_bytes)
+    p = subprocess.run([w2c2_exe, wasm, os.path.join(workdir, "wc.c")], stdout=subprocess.PIPE, stderr=subprocess.PIPE, text=True)
+    if p.returncode != 0:
+        raise RuntimeError("w2c2 failed on the wait-cases module: " + p.stderr[-800:])
+    body = []
+    for _, calls in cases:
+        for ci, (name, args) in enumerate(calls):
+            cargs = "".join(", %dull" % v if t == 'i64' else ", %uu" % v for t, v in args)
+            fn = "wc_" + name.decode()
+            if name == b'st64':
+                body.append(f"  {fn}(&inst{cargs});")
+            elif ci == len(calls) - 1:
+                body.append(f'  printf("%u\\n", {fn}(&inst{cargs})); fflush(stdout);')
+            else:
+                body.append(f"  (void){fn}(&inst{cargs});")
+    main_c = ('#include <stdio.h>\n#include "w2c2_base.h"\n#include "wc.h"\n'
+              'void trap(Trap t) { printf("trap %d\\n", (int)t); fflush(stdout); _Exit(3); }\n'
+              'static wcInstance inst;\nint main(void) {\n  wcInstantiate(&inst, NULL);\n' + "\n".join(body) + "\n  return 0;\n}\n")
+    open(os.path.join(workdir, "wcmain.c"), "w").write(main_c)
+    exe = os.path.join(workdir, "wc_e2e")
+    cmd = [cc, "-O1", "-w", "-DWASM_THREADS_PTHREADS", "-I", os.path.join(repo_copy, "w2c2"), "-I", workdir,
+           os.path.join(workdir, "wc.c"), os.path.join(workdir, "wcmain.c")]
+    cmd += [os.path.join(repo_copy, "futex", f) for f in ("futex.c", "list.c", "map.c")] + ["-o", exe, "-lpthread", "-lm"]
+    p = subprocess.run(cmd, stdout=subprocess.PIPE, stderr=subprocess.PIPE, text=True)
+    if p.returncode != 0:
+        raise RuntimeError("compiling the wait-cases module failed:\n" + p.stderr[-2000:])
+    p = subprocess.run([exe], stdout=subprocess.PIPE, stderr=subprocess.PIPE, text=True, timeout=300)
+    out = p.stdout.split()
+    return [int(x) if x.isdigit() else x for x in out], open(os.path.join(workdir, "wc.c")).read()
+
+
+def v8_wait_cases(wasm_bytes, cases):
+    """The same calls in node's V8 (which allows blocking on the main thread).  Returns the last result of each case
+    (int) or a string describing a trap/error."""
+    import sys
+    sys.path.insert(0, os.path.dirname(HERE))
+    from wasmgen import v8
+    flat = [c for _, calls in cases for c in calls]
+    r = v8.run(wasm_bytes, flat, timeout=120.0)
+    res, i = [], 0
+    for _, calls in cases:
+        i += len(calls)
+        x = r.results[i - 1] if i - 1 < len(r.results) else ('error', 'missing')
+        res.append(x[1][0][1] if x[0] == 'val' and x[1] else str(x))
+    return res
